@@ -5,7 +5,7 @@
    PROVED here (partial): the cryptographic core for every world and fault plan - what Encrypt seals with an
    intermediate key, decryptRow opens with any key object holding the same key material; together with C07
    (nothing else opens) and the frame theorems (store rows are never altered by the SDK, C02). *)
-From Asherah Require Import Envelope.Session Envelope.Frame Envelope.Local Envelope.FrameInst.
+From Asherah Require Import Envelope.Session Envelope.Frame Envelope.Local Envelope.FrameInst Envelope.Coherent Envelope.FreshProcess.
 
 Theorem C01_roundtrip_local_partial : forall e ik payload w d w' ek ik2 w2 ikm n,
   encrypt_with_ik e ik payload w = (inr d, w') -> d_key d = Some ek -> e_key ek = CAead ikm n (PKey (length (w_secrets w))) ->
@@ -20,3 +20,24 @@ Print Assumptions C01_roundtrip_local_partial.
 Theorem C01_key_rows_persist : forall h o, sdk_op o = true -> store_ext (h_world h) (h_world (snd (hstep h o))).
 Proof. exact sdk_store_append_only. Qed.
 Print Assumptions C01_key_rows_persist.
+
+(* over ALL histories (any policies, fault plans, evictions, rotations, revocations, restarts; one service/product, default key
+   ids): the record a successful Encrypt returns decrypts, in another process that has nothing but the metastore and the KMS
+   (empty tables, caching disabled), to EXACTLY the payload that was encrypted - at that moment and, because genuine records
+   stay genuine (C02_records_durable), at every later point of the history *)
+Theorem C01_payload_roundtrip_in_another_process : forall svc prod h s payload faults now pol,
+  HInv svc prod h ->
+  match hstep h (HEncrypt s payload faults) with
+  | (OEnc _ _, _, h') =>
+      exists d pid, h_recs h' = h_recs h ++ [d] /\
+        fst (decrypt_data_row_record (nocache_env svc prod pid pol) d (fresh_world (w_store (h_world h')) now)) = inr (PPayload payload)
+  | _ => True
+  end.
+Proof. exact encrypted_payload_decrypts_in_a_fresh_process. Qed.
+Print Assumptions C01_payload_roundtrip_in_another_process.
+
+(* the invariant HInv above holds in every state a history reaches *)
+Theorem C01_invariant_reachable : forall svc prod t0 ops,
+  Forall (benign svc prod) ops -> HInv svc prod (snd (hrun (hinit t0) ops)).
+Proof. exact invariant_reachable. Qed.
+Print Assumptions C01_invariant_reachable.
